@@ -16,6 +16,9 @@ CHECKS = {
  "C05": dict(cat="fault_enumeration", engine="E1-choice-tree", tech=TECH_FAULT,
    text="52 write operations (Create/CreateInBatches/Save/Update(s)/Delete over nested graphs: belongs-to, has-one, has-many, many-to-many, polymorphic; FullSaveAssociations; Select-ed association deletes) x dialectors (RETURNING, LastInsertId; thorough adds PrepareStmt): the fault-free run fixes the driver calls and hook invocations, then every single fault (quick) / every set of up to 3 faults (thorough) at every driver call and hook invocation is enumerated; oracle: full dump of 9 tables equals the pre-state whenever a fault fired, the injected error is returned, no open transaction or checked-out connection",
    note="SQLite dialect; faults on ROLLBACK are never injected; a failed COMMIT rolls back; 2 open known findings (Save fallback spans two implicit transactions)"),
+ "C07": dict(cat="model_checking", engine="E2-scheduler", tech=TECH_SCHED + "; the same schedules are re-run in a -race build whose hand-offs are invisible to ThreadSanitizer, so every explored schedule is also judged by the Go race detector",
+   text="2-4 goroutines share one *gorm.DB (cold or warm schema cache, with/without PrepareStmt, DryRun and real SQLite) and run programs over a cyclic model family (belongs-to/has-many cycle, many-to-many, polymorphic has-one/has-many, embedded, serializer field, unrelated models): joins, preloads, nested preload, create with nested graph, update, delete, association mode, struct conditions, first-use Session{PrepareStmt}; every interleaving up to the preemption bound is executed on the instrumented schema.go/relationship.go/gorm.go/prepare_stmt.go; oracle per schedule: no deadlock/panic, every thread's observations (SQL+vars or rows, errors) equal the serial run, final rows and the canonical dump of all cached schemas equal the serial run; race pass: no data race between two gorm statements outside known_findings.json (28 pairs of 3 root causes recorded)",
+   note="database/sql, SQLite and reflection are atomic steps; <=4 goroutines; races judged by Go's happens-before on the explored schedules; concurrent Transaction blocks on the same SQLite tables are outside the alphabet"),
  "C09": dict(cat="exploration", engine="E3-enumeration", tech=TECH_ENUM,
    text="every chain of condition-free calls up to length 2-4 x every update/delete finisher x plain/soft-delete model x AllowGlobalUpdate modes is executed on SQLite behind a recording driver; oracle = error identity + empty driver log + cell-level table diff; the positive half inserts each of 16 real conditions at every position",
    note="SQLite dialect; alphabets of DESIGN.md §3 C09; recording driver wraps mattn/go-sqlite3"),
